@@ -7,6 +7,7 @@ package c03
 
 import (
 	"fmt"
+	"go/ast"
 	"go/token"
 	"math/rand"
 	"os"
@@ -154,6 +155,15 @@ func Run(tier string, seed int64, outDir string) *common.Meta {
 	}
 	// one CLI-shaped history: every package in path order, files in order (what `go-critic check ./...` does)
 	histories = append(histories, files)
+	// construction-directed: per-file context tables (imports, renames) must be rebuilt for EVERY file, so put an
+	// import-less file (or one that imports less) right after a file whose import names occur as identifiers in it
+	pairCap := 120
+	if tier == "thorough" {
+		pairCap = 2000
+	}
+	pairs := adjacentPairs(rng, files, pairCap)
+	histories = append(histories, pairs)
+	meta.Distribution["adjacent_import_pairs"] = len(pairs) / 2
 
 	// fresh results for every (checker, file) that occurs: computed once, in parallel
 	fresh := fw.NewFreshCache()
@@ -193,6 +203,11 @@ func Run(tier string, seed int64, outDir string) *common.Meta {
 		got     fw.Outcome
 		prev    fw.Outcome
 	}
+	type ctxFailure struct {
+		at        int
+		got, want string
+	}
+	ctxFails := make([][]ctxFailure, len(histories))
 	fails := make([][]failure, len(histories))
 	stats := make([][3]int, len(histories))
 	fw.Parallel(len(histories), func(hi int) {
@@ -202,13 +217,20 @@ func Run(tier string, seed int64, outDir string) *common.Meta {
 			fails[hi] = append(fails[hi], failure{hi, -1, 0, fw.Outcome{Panic: "NewSet: " + err.Error()}, fw.Outcome{}})
 			return
 		}
+		set.Ctx.Require.PkgRenames = true // integrator-side switch: lets the oracle watch the rename table as well
 		reported := map[int]bool{}
+		ctxReported := false
 		prev := make([]fw.Outcome, len(set.Checkers))
 		for at, f := range h {
 			if at > 0 && h[at-1].Pkg != f.Pkg {
 				stats[hi][2]++
 			}
 			set.Enter(f, false)
+			// the shared context itself: after SetPackageInfo/SetFileInfo it must look as if this were the first file ever
+			if got, want := ctxView(set.Ctx), freshCtxView(set.Ctx, f); got != want && !ctxReported {
+				ctxReported = true
+				ctxFails[hi] = append(ctxFails[hi], ctxFailure{at, got, want})
+			}
 			for ci, c := range set.Checkers {
 				got := fw.SafeCheck(c, f)
 				stats[hi][0]++
@@ -237,6 +259,28 @@ func Run(tier string, seed int64, outDir string) *common.Meta {
 	meta.Distribution["visits_with_warnings"] = nonEmpty
 	meta.Evaluations = visits
 	meta.Distinct = nonEmpty
+
+	for hi := range ctxFails {
+		for _, cf := range ctxFails[hi] {
+			h := histories[hi]
+			var prevDesc []visitDesc
+			if cf.at > 0 {
+				prevDesc = descs(h[cf.at-1 : cf.at+1])
+			} else {
+				prevDesc = descs(h[:1])
+			}
+			field := "context"
+			for _, fl := range []string{"Filename", "PkgObjects", "PkgRenames"} {
+				if fieldOf(cf.got, fl) != fieldOf(cf.want, fl) {
+					field = fl
+					break
+				}
+			}
+			meta.Fail("C03/linter.Context/stale-"+field, "after SetPackageInfo+SetFileInfo the long-lived context differs from a new context prepared for the same file (field "+field+")",
+				map[string]interface{}{"history_tail": prevDesc, "position_in_history": cf.at, "long_lived_context": cf.got, "fresh_context": cf.want,
+					"replay": "NewContext once; SetPackageInfo/SetFileInfo for the two files in order; compare Filename/PkgObjects/PkgRenames with a new context that only saw the second file"})
+		}
+	}
 
 	// report + shrink
 	nFail := 0
@@ -303,6 +347,124 @@ func Run(tier string, seed int64, outDir string) *common.Meta {
 		"(NewContext + NewChecker once; SetPackageInfo on package change, SetFileInfo, Check) and is compared (offset, text, fix, panic) with a fresh context+checker that saw only that file; " +
 		"evaluations = (visit, checker) pairs compared; distinct_nontrivial = those where the checker produced at least one warning"
 	return meta
+}
+
+// ctxView renders the per-file part of the shared context (names only, so that two contexts can be compared).
+func ctxView(c *linter.Context) string {
+	var po, pr []string
+	for k, v := range c.PkgObjects {
+		path := ""
+		if k != nil && k.Imported() != nil {
+			path = k.Imported().Path()
+		}
+		po = append(po, v+"="+path)
+	}
+	sort.Strings(po)
+	for k, v := range c.PkgRenames {
+		pr = append(pr, k+"="+v)
+	}
+	sort.Strings(pr)
+	return "Filename:" + c.Filename + "|PkgObjects:" + strings.Join(po, ",") + "|PkgRenames:" + strings.Join(pr, ",")
+}
+
+func fieldOf(view, field string) string {
+	for _, part := range strings.Split(view, "|") {
+		if strings.HasPrefix(part, field+":") {
+			return part
+		}
+	}
+	return ""
+}
+
+func freshCtxView(like *linter.Context, f *fw.File) string {
+	ctx := linter.NewContext(f.Pkg.Fset, fw.Sizes)
+	ctx.Require = like.Require
+	ctx.SetPackageInfo(f.Pkg.Info, f.Pkg.Types)
+	ctx.SetFileInfo(f.Name, f.AST)
+	return ctxView(ctx)
+}
+
+// adjacentPairs returns f1,g1,f2,g2,...: g_i has no imports (or fewer than f_i) and uses identifiers that are
+// import names of f_i — within one package where possible, across packages otherwise.
+func adjacentPairs(rng *rand.Rand, files []*fw.File, max int) []*fw.File {
+	importNames := func(f *fw.File) map[string]bool {
+		m := map[string]bool{}
+		for _, im := range f.AST.Imports {
+			if im.Name != nil {
+				m[im.Name.Name] = true
+			} else {
+				p := strings.Trim(im.Path.Value, "\"")
+				if i := strings.LastIndex(p, "/"); i >= 0 {
+					p = p[i+1:]
+				}
+				m[p] = true
+			}
+		}
+		return m
+	}
+	idents := func(f *fw.File) map[string]bool {
+		m := map[string]bool{}
+		ast.Inspect(f.AST, func(n ast.Node) bool {
+			if id, ok := n.(*ast.Ident); ok {
+				m[id.Name] = true
+			}
+			return true
+		})
+		return m
+	}
+	type fi struct {
+		f   *fw.File
+		imp map[string]bool
+		ids map[string]bool
+	}
+	var all []fi
+	for _, f := range files {
+		all = append(all, fi{f, importNames(f), idents(f)})
+	}
+	var out []*fw.File
+	add := func(a, b *fw.File) { out = append(out, a, b) }
+	// same package first
+	for _, g := range all {
+		for _, f := range all {
+			if f.f == g.f || f.f.Pkg != g.f.Pkg || len(f.imp) <= len(g.imp) {
+				continue
+			}
+			add(f.f, g.f)
+		}
+	}
+	// across packages: an import name of f occurs as an identifier of g and is not an import of g
+	var cross [][2]*fw.File
+	for _, g := range all {
+		if len(g.imp) > 2 {
+			continue
+		}
+		for _, f := range all {
+			if f.f.Pkg == g.f.Pkg {
+				continue
+			}
+			hit := false
+			for n := range f.imp {
+				if g.ids[n] && !g.imp[n] {
+					hit = true
+					break
+				}
+			}
+			if hit {
+				cross = append(cross, [2]*fw.File{f.f, g.f})
+			}
+		}
+	}
+	rng.Shuffle(len(cross), func(i, j int) { cross[i], cross[j] = cross[j], cross[i] })
+	for _, c := range cross {
+		if len(out) >= 2*max {
+			break
+		}
+		add(c[0], c[1])
+	}
+	if len(out) > 2*max {
+		out = out[:2*max]
+	}
+	return out
 }
 
 func genHistory(rng *rand.Rand, pkgs []*fw.Pkg, n int) []*fw.File {
